@@ -207,6 +207,7 @@ structure SwapFx (cv : Curve) (f : Fees) (dir : Bool) (o a a' : Side) (amt : Nat
   brn : a'.brn = a.brn + c.burnFee
   tot : a'.tot = a.tot - c.burnFee
   col : a'.col = a.col
+  colB : a'.colB = a.colB
   sent : a'.sent = a.sent
   native : a'.native = a.native
 
@@ -240,7 +241,7 @@ theorem swapCore_ok {cv : Curve} {f : Fees} {dir : Bool} {o a a' : Side} {amt : 
   obtain ⟨l13, hb2⟩ := csub_eq_ok e13
   subst hp1 hp2 hp3
   exact { offerOk := by omega, askOk := l3, comp := e4, paid := by omega, bal := by simp only []; omega,
-          pend := hpe, allTime := hal, burned := hb, chg := rfl, brn := rfl, tot := rfl, col := rfl,
+          pend := hpe, allTime := hal, burned := hb, chg := rfl, brn := rfl, tot := rfl, col := rfl, colB := rfl,
           sent := rfl, native := rfl }
 
 /-! ### operation-level inversion -/
@@ -465,25 +466,50 @@ theorem withdraw_ok {s s' : St} {u amt : Nat} (h : withdraw s u amt = .ok s') :
   · simp only [St.setUser, St.user, dflt]; omega
   · simp only [St.setUser, St.user, dflt]; omega
 
+/-- what a collection above the threshold does to one side: the pending entry leaves the pair and
+    lands with the configured collector (`useB` selects which of the two collector accounts) -/
+structure CollectFx (useB : Bool) (x x' : Side) : Prop where
+  above : Gen.PAIR_MINIMUM_COLLECTABLE_BALANCE < x.pend
+  le : x.pend ≤ x.bal
+  bal : x'.bal = x.bal - x.pend
+  pend : x'.pend = 0
+  col : x'.col = (if useB then x.col else x.col + x.pend)
+  colB : x'.colB = (if useB then x.colB + x.pend else x.colB)
+  sent : x'.sent = x.sent + x.pend
+  native : x'.native = x.native
+  allTime : x'.allTime = x.allTime
+  burned : x'.burned = x.burned
+  chg : x'.chg = x.chg
+  brn : x'.brn = x.brn
+  tot : x'.tot = x.tot
+
 /-- one side of `collect_protocol_fees` -/
-theorem collectSide_ok {x x' : Side} (h : collectSide x = .ok x') :
-    (Gen.PAIR_MINIMUM_COLLECTABLE_BALANCE < x.pend ∧ x.pend ≤ x.bal ∧
-      x' = { x with bal := x.bal - x.pend, pend := 0, col := x.col + x.pend, sent := x.sent + x.pend }) ∨
-    (x.pend ≤ Gen.PAIR_MINIMUM_COLLECTABLE_BALANCE ∧ x' = x) := by
+theorem collectSide_ok {useB : Bool} {x x' : Side} (h : collectSide useB x = .ok x') :
+    CollectFx useB x x' ∨ (x.pend ≤ Gen.PAIR_MINIMUM_COLLECTABLE_BALANCE ∧ x' = x) := by
   unfold collectSide at h
   split at h
   · rename_i hc
     obtain ⟨b, e, h⟩ := Res.bind_eq_ok h
     obtain ⟨l, hb⟩ := csub_eq_ok e
-    injection h with h
-    subst h hb
-    exact Or.inl ⟨hc, l, rfl⟩
+    subst hb
+    cases useB with
+    | true =>
+      simp only [if_true] at h
+      injection h with h
+      subst h
+      exact Or.inl ⟨hc, l, rfl, rfl, rfl, rfl, rfl, rfl, rfl, rfl, rfl, rfl, rfl⟩
+    | false =>
+      simp only [Bool.false_eq_true, if_false] at h
+      injection h with h
+      subst h
+      exact Or.inl ⟨hc, l, rfl, rfl, rfl, rfl, rfl, rfl, rfl, rfl, rfl, rfl, rfl⟩
   · rename_i hc
     injection h with h
     exact Or.inr ⟨by omega, h.symm⟩
 
 theorem collect_ok {s s' : St} (h : collect s = .ok s') :
-    ∃ y0 y1, collectSide s.x0 = .ok y0 ∧ collectSide s.x1 = .ok y1 ∧ s' = { s with x0 := y0, x1 := y1 } := by
+    ∃ y0 y1, collectSide s.useB s.x0 = .ok y0 ∧ collectSide s.useB s.x1 = .ok y1 ∧
+      s' = { s with x0 := y0, x1 := y1 } := by
   unfold collect at h
   obtain ⟨y0, e0, h⟩ := Res.bind_eq_ok h
   obtain ⟨y1, e1, h⟩ := Res.bind_eq_ok h
@@ -497,6 +523,13 @@ theorem setFees_ok {s s' : St} {o : Bool} {f : Fees} (h : setFees s o f = .ok s'
   obtain ⟨_, g2, h⟩ := Res.bind_eq_ok h
   injection h with h
   exact ⟨guardErr_eq_ok g1, guardErr_eq_ok g2, h.symm⟩
+
+theorem setCollector_ok {s s' : St} {o b : Bool} (h : setCollector s o b = .ok s') :
+    o = true ∧ s' = { s with useB := b } := by
+  unfold setCollector at h
+  obtain ⟨_, g1, h⟩ := Res.bind_eq_ok h
+  injection h with h
+  exact ⟨guardErr_eq_ok g1, h.symm⟩
 
 theorem donate_ok {s s' : St} {u which amt : Nat} (h : donate s u which amt = .ok s') :
     u < s.users.length ∧
@@ -558,13 +591,13 @@ structure SideLedger (K C : Nat) (x : Side) : Prop where
   ledger : x.pend + x.sent = x.chg
   allTime : x.allTime = x.chg
   burned : x.burned = x.brn
-  col : x.col = C + x.sent
+  col : x.col + x.colB = C + x.sent
   supply : x.tot + x.brn = K
 
 /-- closed world: every unit of each asset is on the pair, with the collector or with a user -/
 structure Cons (s : St) : Prop where
-  c0 : s.x0.tot = s.x0.bal + s.x0.col + sumF (·.a) s.users
-  c1 : s.x1.tot = s.x1.bal + s.x1.col + sumF (·.b) s.users
+  c0 : s.x0.tot = s.x0.bal + s.x0.col + s.x0.colB + sumF (·.a) s.users
+  c1 : s.x1.tot = s.x1.bal + s.x1.col + s.x1.colB + sumF (·.b) s.users
 
 structure LInv (K0 C0 K1 C1 : Nat) (s : St) : Prop where
   l0 : SideLedger K0 C0 s.x0
@@ -575,19 +608,22 @@ theorem SideLedger.of_swap {K C : Nat} {cv : Curve} {f : Fees} {dir : Bool} {o a
     {c : SwapComp} (fx : SwapFx cv f dir o a a' amt c) (h : SideLedger K C a) (hb : c.burnFee ≤ a.tot) :
     SideLedger K C a' := by
   have := fx.pend; have := fx.allTime; have := fx.burned; have := fx.chg; have := fx.brn
-  have := fx.tot; have := fx.col; have := fx.sent
+  have := fx.tot; have := fx.col; have := fx.colB; have := fx.sent
   have := h.ledger; have := h.allTime; have := h.burned; have := h.col; have := h.supply
   exact ⟨by omega, by omega, by omega, by omega, by omega⟩
 
 theorem SideLedger.of_bal {K C : Nat} {x : Side} (h : SideLedger K C x) (b : Nat) :
     SideLedger K C { x with bal := b } := ⟨h.ledger, h.allTime, h.burned, h.col, h.supply⟩
 
-theorem SideLedger.of_collect {K C : Nat} {x x' : Side} (h : SideLedger K C x) (hc : collectSide x = .ok x') :
-    SideLedger K C x' := by
-  rcases collectSide_ok hc with ⟨_, _, e⟩ | ⟨_, e⟩
-  · subst e
-    have := h.ledger; have := h.col
-    exact ⟨by simp only []; omega, h.allTime, h.burned, by simp only []; omega, h.supply⟩
+theorem SideLedger.of_collect {K C : Nat} {useB : Bool} {x x' : Side} (h : SideLedger K C x)
+    (hc : collectSide useB x = .ok x') : SideLedger K C x' := by
+  rcases collectSide_ok hc with fx | ⟨_, e⟩
+  · have := h.ledger; have := h.col; have := h.allTime; have := h.burned; have := h.supply
+    have := fx.pend; have := fx.sent; have := fx.allTime; have := fx.burned; have := fx.chg
+    have := fx.brn; have := fx.tot
+    have hcol : x'.col + x'.colB = x.col + x.colB + x.pend := by
+      rw [fx.col, fx.colB]; cases useB <;> simp <;> omega
+    exact ⟨by omega, by omega, by omega, by omega, by omega⟩
   · subst e; exact h
 
 /-- the ledger invariant and the closed-world conservation are preserved by every successful
@@ -600,13 +636,13 @@ theorem step_linv {cv : Curve} {K0 C0 K1 C1 : Nat} {s s' : St} {op : Op} (hL : L
     obtain ⟨_, _, _, _, _, hcase⟩ := swap_ok h
     have c0 := hL.cons.c0; have c1 := hL.cons.c1
     rcases hcase with ⟨_, a', c, fx, e0, e1, hA, hB⟩ | ⟨_, a', c, fx, e1, e0, hB, hA⟩
-    · have hp := fx.paid; have hb := fx.bal; have ht := fx.tot; have hc := fx.col
+    · have hp := fx.paid; have hb := fx.bal; have ht := fx.tot; have hc := fx.col; have hcb := fx.colB
       refine ⟨?_, ?_, ⟨?_, ?_⟩⟩
       · rw [e0]; exact hL.l0.of_bal _
       · rw [e1]; exact hL.l1.of_swap fx (by omega)
       · rw [e0]; simp only []; omega
       · rw [e1]; omega
-    · have hp := fx.paid; have hb := fx.bal; have ht := fx.tot; have hc := fx.col
+    · have hp := fx.paid; have hb := fx.bal; have ht := fx.tot; have hc := fx.col; have hcb := fx.colB
       refine ⟨?_, ?_, ⟨?_, ?_⟩⟩
       · rw [e0]; exact hL.l0.of_swap fx (by omega)
       · rw [e1]; exact hL.l1.of_bal _
@@ -636,10 +672,26 @@ theorem step_linv {cv : Curve} {K0 C0 K1 C1 : Nat} {s s' : St} {op : Op} (hL : L
     subst e
     have c0 := hL.cons.c0; have c1 := hL.cons.c1
     refine ⟨hL.l0.of_collect h0, hL.l1.of_collect h1, ⟨?_, ?_⟩⟩
-    · rcases collectSide_ok h0 with ⟨_, _, e⟩ | ⟨_, e⟩ <;> subst e <;> simp only [] <;> omega
-    · rcases collectSide_ok h1 with ⟨_, _, e⟩ | ⟨_, e⟩ <;> subst e <;> simp only [] <;> omega
+    · rcases collectSide_ok h0 with fx | ⟨_, e⟩
+      · have h1 := fx.le; have h2 := fx.bal; have h3 := fx.tot
+        have hcol : y0.col + y0.colB = s.x0.col + s.x0.colB + s.x0.pend := by
+          rw [fx.col, fx.colB]; cases s.useB <;> simp <;> omega
+        show y0.tot = y0.bal + y0.col + y0.colB + sumF (·.a) s.users
+        rw [h3, h2, c0]; omega
+      · subst e; exact c0
+    · rcases collectSide_ok h1 with fx | ⟨_, e⟩
+      · have h1 := fx.le; have h2 := fx.bal; have h3 := fx.tot
+        have hcol : y1.col + y1.colB = s.x1.col + s.x1.colB + s.x1.pend := by
+          rw [fx.col, fx.colB]; cases s.useB <;> simp <;> omega
+        show y1.tot = y1.bal + y1.col + y1.colB + sumF (·.b) s.users
+        rw [h3, h2, c1]; omega
+      · subst e; exact c1
   | setFees o f =>
     obtain ⟨_, _, e⟩ := setFees_ok h
+    subst e
+    exact ⟨hL.l0, hL.l1, ⟨hL.cons.c0, hL.cons.c1⟩⟩
+  | setCollector o b =>
+    obtain ⟨_, e⟩ := setCollector_ok h
     subst e
     exact ⟨hL.l0, hL.l1, ⟨hL.cons.c0, hL.cons.c1⟩⟩
   | foreign k u a => cases h
@@ -757,14 +809,20 @@ theorem step_inv {s s' : St} {op : Op} (hI : Inv s) (h : step cpCurve s op = .ok
     obtain ⟨y0, y1, h0, h1, e⟩ := collect_ok h
     subst e
     refine ⟨⟨?_, ?_, hI.lpSum, hI.locked⟩, Nat.le_refl _⟩
-    · rcases collectSide_ok h0 with ⟨_, _, e⟩ | ⟨_, e⟩ <;> subst e
-      · simp
-      · exact hI.solv0
-    · rcases collectSide_ok h1 with ⟨_, _, e⟩ | ⟨_, e⟩ <;> subst e
-      · simp
-      · exact hI.solv1
+    · rcases collectSide_ok h0 with fx | ⟨_, e⟩
+      · show y0.pend ≤ y0.bal
+        rw [fx.pend]; exact Nat.zero_le _
+      · subst e; exact hI.solv0
+    · rcases collectSide_ok h1 with fx | ⟨_, e⟩
+      · show y1.pend ≤ y1.bal
+        rw [fx.pend]; exact Nat.zero_le _
+      · subst e; exact hI.solv1
   | setFees o f =>
     obtain ⟨_, _, e⟩ := setFees_ok h
+    subst e
+    exact ⟨⟨hI.solv0, hI.solv1, hI.lpSum, hI.locked⟩, Nat.le_refl _⟩
+  | setCollector o b =>
+    obtain ⟨_, e⟩ := setCollector_ok h
     subst e
     exact ⟨⟨hI.solv0, hI.solv1, hI.lpSum, hI.locked⟩, Nat.le_refl _⟩
   | foreign k u a => cases h
@@ -893,14 +951,22 @@ theorem step_value {s s' : St} {op : Op} (h : step cpCurve s op = .ok s') (hS : 
     obtain ⟨y0, y1, h0, h1, e⟩ := collect_ok h
     subst e
     refine ValueLe.of_res (s := s) (s' := { s with x0 := y0, x1 := y1 }) ?_ ?_ rfl
-    · rcases collectSide_ok h0 with ⟨_, _, e⟩ | ⟨_, e⟩ <;> subst e
-      · simp [Side.res]
-      · exact Nat.le_refl _
-    · rcases collectSide_ok h1 with ⟨_, _, e⟩ | ⟨_, e⟩ <;> subst e
-      · simp [Side.res]
-      · exact Nat.le_refl _
+    · rcases collectSide_ok h0 with fx | ⟨_, e⟩
+      · have := fx.le; have := fx.bal; have := fx.pend
+        show s.x0.res ≤ y0.res
+        simp only [Side.res]; omega
+      · subst e; exact Nat.le_refl _
+    · rcases collectSide_ok h1 with fx | ⟨_, e⟩
+      · have := fx.le; have := fx.bal; have := fx.pend
+        show s.x1.res ≤ y1.res
+        simp only [Side.res]; omega
+      · subst e; exact Nat.le_refl _
   | setFees o f =>
     obtain ⟨_, _, e⟩ := setFees_ok h
+    subst e
+    exact ValueLe.refl _
+  | setCollector o b =>
+    obtain ⟨_, e⟩ := setCollector_ok h
     subst e
     exact ValueLe.refl _
   | foreign k u a => cases h
@@ -1083,18 +1149,22 @@ theorem deposit_then_withdraw_le {s s1 s2 : St} {u d0 d1 amt : Nat} {tol : Optio
 def collectable (x : Side) : Bool := decide (Gen.PAIR_MINIMUM_COLLECTABLE_BALANCE < x.pend)
 
 /-- one side of a collection: exactly the pending entry moves (iff above the threshold), to the
-    collector; the reported reserve, the counters and the circulating amount are untouched -/
-theorem collectSide_exact {x x' : Side} (h : collectSide x = .ok x') :
-    x'.col = x.col + (if collectable x then x.pend else 0) ∧
+    CONFIGURED collector (the other collector account gets nothing); the reported reserve, the
+    counters and the circulating amount are untouched -/
+theorem collectSide_exact {useB : Bool} {x x' : Side} (h : collectSide useB x = .ok x') :
+    x'.col = x.col + (if collectable x && !useB then x.pend else 0) ∧
+    x'.colB = x.colB + (if collectable x && useB then x.pend else 0) ∧
     x'.pend = (if collectable x then 0 else x.pend) ∧
     x.bal - x'.bal = (if collectable x then x.pend else 0) ∧ x'.bal ≤ x.bal ∧
     x'.res = x.res ∧ x'.allTime = x.allTime ∧ x'.burned = x.burned ∧ x'.chg = x.chg ∧ x'.brn = x.brn ∧
     x'.tot = x.tot ∧ x'.sent = x.sent + (if collectable x then x.pend else 0) := by
-  rcases collectSide_ok h with ⟨hc, hl, e⟩ | ⟨hc, e⟩
-  · have : collectable x = true := by simp [collectable, hc]
-    subst e
-    simp only [this, if_true, Side.res]
-    refine ⟨trivial, trivial, by omega, by omega, by omega, trivial, trivial, trivial, trivial, trivial, trivial⟩
+  rcases collectSide_ok h with fx | ⟨hc, e⟩
+  · have hcl : collectable x = true := by simp [collectable, fx.above]
+    have := fx.le; have := fx.bal; have := fx.pend
+    simp only [hcl, if_true, Bool.true_and, Side.res]
+    refine ⟨?_, ?_, fx.pend, by omega, by omega, by omega, fx.allTime, fx.burned, fx.chg, fx.brn, fx.tot, fx.sent⟩
+    · rw [fx.col]; cases useB <;> simp
+    · rw [fx.colB]; cases useB <;> simp
   · have : collectable x = false := by simp [collectable]; omega
     subst e
     simp [this]
@@ -1106,7 +1176,7 @@ structure SideDelta (x x' : Side) (pf bf sent : Nat) : Prop where
   brn : x'.brn = x.brn + bf
   burned : x'.burned = x.burned + bf
   snt : x'.sent = x.sent + sent
-  col : x'.col = x.col + sent
+  col : x'.col + x'.colB = x.col + x.colB + sent
   pend : x'.pend + sent = x.pend + pf
 
 theorem SideDelta.zero_of_bal (x : Side) (b : Nat) : SideDelta x { x with bal := b } 0 0 0 :=
@@ -1130,9 +1200,9 @@ theorem step_deltas {cv : Curve} {s s' : St} {op : Op} (h : step cv s op = .ok s
     rcases hcase with ⟨_, a', c, fx, x0, x1, _, _⟩ | ⟨_, a', c, fx, x1, x0, _, _⟩
     · refine ⟨0, 0, c.protFee, c.burnFee, ?_, ?_⟩
       · rw [x0]; exact SideDelta.zero_of_bal _ _
-      · rw [x1]; exact ⟨fx.chg, fx.allTime, fx.brn, fx.burned, fx.sent, fx.col, fx.pend⟩
+      · rw [x1]; exact ⟨fx.chg, fx.allTime, fx.brn, fx.burned, fx.sent, by rw [fx.col, fx.colB]; rfl, fx.pend⟩
     · refine ⟨c.protFee, c.burnFee, 0, 0, ?_, ?_⟩
-      · rw [x0]; exact ⟨fx.chg, fx.allTime, fx.brn, fx.burned, fx.sent, fx.col, fx.pend⟩
+      · rw [x0]; exact ⟨fx.chg, fx.allTime, fx.brn, fx.burned, fx.sent, by rw [fx.col, fx.colB]; rfl, fx.pend⟩
       · rw [x1]; exact SideDelta.zero_of_bal _ _
   cases op with
   | provide u rcv d0 d1 tol =>
@@ -1154,16 +1224,24 @@ theorem step_deltas {cv : Curve} {s s' : St} {op : Op} (h : step cv s op = .ok s
   | collect =>
     obtain ⟨y0, y1, h0, h1, e⟩ := collect_ok h
     subst e
-    obtain ⟨c0, p0, _, _, _, a0, b0, g0, n0, _, t0⟩ := collectSide_exact h0
-    obtain ⟨c1, p1, _, _, _, a1, b1, g1, n1, _, t1⟩ := collectSide_exact h1
+    obtain ⟨c0, cb0, p0, _, _, _, a0, b0, g0, n0, _, t0⟩ := collectSide_exact h0
+    obtain ⟨c1, cb1, p1, _, _, _, a1, b1, g1, n1, _, t1⟩ := collectSide_exact h1
     refine ⟨0, 0, if collectable s.x0 then s.x0.pend else 0, 0, 0, if collectable s.x1 then s.x1.pend else 0,
-      ⟨g0, a0, n0, b0, t0, c0, ?_⟩, ⟨g1, a1, n1, b1, t1, c1, ?_⟩, by simp, fun _ => rfl⟩
+      ⟨g0, a0, n0, b0, t0, ?_, ?_⟩, ⟨g1, a1, n1, b1, t1, ?_, ?_⟩, by simp, fun _ => rfl⟩
+    · show y0.col + y0.colB = _
+      rw [c0, cb0]; cases collectable s.x0 <;> cases s.useB <;> simp <;> omega
     · show y0.pend + _ = _
       rw [p0]; split <;> omega
+    · show y1.col + y1.colB = _
+      rw [c1, cb1]; cases collectable s.x1 <;> cases s.useB <;> simp <;> omega
     · show y1.pend + _ = _
       rw [p1]; split <;> omega
   | setFees o f =>
     obtain ⟨_, _, e⟩ := setFees_ok h
+    subst e
+    exact ⟨0, 0, 0, 0, 0, 0, SideDelta.same _, SideDelta.same _, by simp, by simp⟩
+  | setCollector o b =>
+    obtain ⟨_, e⟩ := setCollector_ok h
     subst e
     exact ⟨0, 0, 0, 0, 0, 0, SideDelta.same _, SideDelta.same _, by simp, by simp⟩
   | foreign k u a => cases h
